@@ -1,4 +1,5 @@
 //! itmc — bounded exhaustive exploration (model checking) of the real indextree arena.
+mod deep;
 mod explore;
 mod judges;
 mod known;
@@ -255,6 +256,156 @@ fn cmd_sweep(args: &[String]) -> i32 {
     }
 }
 
+/// C06 / C07: deep generation run + boundary windows + ordinary sweep.
+fn cmd_deep(args: &[String]) -> i32 {
+    let prop = arg(args, "--prop").unwrap_or_else(|| "C06".into());
+    let tier = arg(args, "--tier").unwrap_or_else(|| "quick".into());
+    let q = tier == "quick";
+    let t0 = Instant::now();
+    let target = prop_from_name(&prop).unwrap_or_else(|| machinery("unknown property"));
+    let known = known::Known::load(&format!("{VERIF}/known_findings.jsonl"));
+    let cycles: usize = arg(args, "--cycles")
+        .and_then(|s| s.parse().ok())
+        .unwrap_or(if q { 70_000 } else { 140_000 });
+    let retire_min = JudgeCfg::default().retire_min;
+    let pool = rayon::ThreadPoolBuilder::new().num_threads(threads()).build().unwrap();
+    let stripes = threads().max(2);
+    let (deep, agree) = pool.install(|| deep::run_parallel(cycles, stripes, retire_min));
+    if agree != stripes {
+        machinery("the deep history is not deterministic: stripes produced different id sequences");
+    }
+    eprintln!(
+        "[{prop} {tier}] deep run: {} cycles, {} is_removed checks, retirements {:?}, {} failure kinds, {:.1}s",
+        deep.cycles_done, deep.is_removed_checks, deep.retirements, deep.failures.len(), t0.elapsed().as_secs_f64()
+    );
+    let mut unknown = 0usize;
+    let mut deep_viol = Vec::new();
+    for (c, f) in &deep.failures {
+        if f.props & target == 0 {
+            continue;
+        }
+        if known.matches(f.props & target, &f.sig) {
+            println!("KNOWN-FINDING: property={} {} [{}]", prop, known.describe(f.props & target, &f.sig), f.sig);
+            continue;
+        }
+        unknown += 1;
+        let _ = std::fs::create_dir_all(format!("{VERIF}/replays"));
+        let path = format!("{VERIF}/replays/{}-{}.json", prop, report::sig_hash(&f.sig));
+        let j = json!({
+            "property": prop, "tier": tier, "buildcfg": report::buildcfg(),
+            "init": "Arena::new()", "deep_cycles": c + 1,
+            "ops": ["(new_node; remove 1) repeated deep_cycles times"],
+            "judge": f.judge, "signature": f.sig, "detail": f.detail,
+            "rust_test": format!("#[test]\nfn replay() {{\n    let mut arena = indextree::Arena::new();\n    let mut ids = Vec::new();\n    for _ in 0..{} {{ let id = arena.new_node(0u8); assert!(!ids.contains(&id)); ids.push(id); id.remove(&mut arena); }}\n    for id in &ids {{ assert!(id.is_removed(&arena)); }}\n}}\n", c + 1),
+        });
+        std::fs::write(&path, serde_json::to_string_pretty(&j).unwrap()).expect("write replay");
+        println!("VIOLATION property={} replay={}", prop, path);
+        println!("  signature: {}\n  observed : {}", f.sig, f.detail);
+        deep_viol.push(json!({"cycle": c, "signature": f.sig, "detail": f.detail}));
+    }
+    // ---- boundary windows ------------------------------------------------------------
+    let mut reports: Vec<Report> = Vec::new();
+    let mut window_labels = Vec::new();
+    let cap_s: u64 = arg(args, "--cap-s").and_then(|s| s.parse().ok()).unwrap_or(if q { 45 } else { 1500 });
+    let deadline = Instant::now() + Duration::from_secs(cap_s);
+    let mut judge = JudgeCfg { target, ..Default::default() };
+    judge.retire_min = retire_min;
+    if unknown == 0 {
+        if let Some(&(r, _)) = deep.retirements.first() {
+            let slot_sets: Vec<usize> = if q { vec![1] } else { vec![1, 2] };
+            for slots in slot_sets {
+                let mut inits = Vec::new();
+                for k in r.saturating_sub(3)..=r + 1 {
+                    let label = format!("seed(cycles={k},slots={slots})");
+                    window_labels.push(label.clone());
+                    inits.push(Init::Seed(label, deep::seed_state(k, slots)));
+                }
+                let (n, a) = if slots == 1 { (3, if q { 5 } else { 6 }) } else { (4, 5) };
+                let cfg = RunCfg {
+                    n, a,
+                    profile: Profile::default(),
+                    judge: judge.clone(),
+                    inits,
+                    threads: threads(),
+                    deadline: Some(deadline),
+                    state_cap: 40_000_000,
+                    seed: seed(),
+                    validate_paths: true,
+                    keep_digests: false,
+                    collision_audit: false,
+                };
+                let rep = explore::explore(&cfg, &known);
+                eprintln!(
+                    "[{prop} {tier}] boundary windows around cycle {r} ({slots} slot(s)), bounds ({n},+{a}): states={} transitions={} exhaustive={} violations={} {:.1}s",
+                    rep.states, rep.transitions, rep.exhaustive, rep.violations.len(), rep.wall_s
+                );
+                reports.push(rep);
+            }
+        }
+        // ---- ordinary sweep: every allocation transition with `issued` in the state ----
+        for (n, a) in if q { vec![(3, 7), (4, 6)] } else { vec![(3, 9), (4, 8), (5, 6)] } {
+            let cfg = RunCfg {
+                n, a,
+                profile: Profile::default(),
+                judge: judge.clone(),
+                inits: vec![Init::New],
+                threads: threads(),
+                deadline: Some(deadline),
+                state_cap: 40_000_000,
+                seed: seed(),
+                validate_paths: true,
+                keep_digests: false,
+                collision_audit: false,
+            };
+            let rep = explore::explore(&cfg, &known);
+            eprintln!(
+                "[{prop} {tier}] sweep ({n},{a}): states={} transitions={} exhaustive={} violations={} {:.1}s",
+                rep.states, rep.transitions, rep.exhaustive, rep.violations.len(), rep.wall_s
+            );
+            let stop = rep.violations.iter().any(|v| !v.known) || rep.cap_hit.is_some();
+            reports.push(rep);
+            if stop {
+                break;
+            }
+        }
+    }
+    unknown += report::emit(&prop, target, &tier, &reports, &known, &format!("{VERIF}/replays"));
+    let wall = t0.elapsed().as_secs_f64();
+    if let Some(path) = arg(args, "--evidence") {
+        let extra = json!({
+            "deep_run": {
+                "history": "(new_node; remove) repeated on one slot",
+                "cycles": deep.cycles_done,
+                "distinct_ids_issued": deep.ids.iter().collect::<std::collections::HashSet<_>>().len(),
+                "is_removed_evaluations": deep.is_removed_checks,
+                "retirements_cycle_slot": deep.retirements,
+                "stripes_agreeing": agree,
+                "violations": deep_viol,
+                "first_ids": deep.ids.iter().take(3).map(|i| obs::fmt_id(Some(*i))).collect::<Vec<_>>(),
+                "last_ids": deep.ids.iter().rev().take(3).map(|i| obs::fmt_id(Some(*i))).collect::<Vec<_>>(),
+            },
+            "boundary_windows": window_labels,
+        });
+        let mut ev = evidence_json(&prop, &tier, &reports, unknown, extra, vec![
+            format!("the generation counter is exercised to {} cycles per slot; a wider counter is reported as 'no retirement below the cap'", deep.cycles_done),
+            "a slot may be retired only after at least 10000 issues (C07's exception)".into(),
+        ], wall);
+        // the deep run's own states/transitions: each cycle is two transitions through distinct arenas
+        let c = ev["coverage"].as_object_mut().unwrap();
+        let st = c["states"].as_u64().unwrap() + 2 * deep.cycles_done as u64;
+        let tr = c["transitions"].as_u64().unwrap() + 2 * deep.cycles_done as u64;
+        let tv = c["traces_validated_against_impl"].as_u64().unwrap() + agree as u64;
+        c.insert("states".into(), json!(st));
+        c.insert("transitions".into(), json!(tr));
+        c.insert("traces_validated_against_impl".into(), json!(tv));
+        if let Some(dir) = std::path::Path::new(&path).parent() {
+            let _ = std::fs::create_dir_all(dir);
+        }
+        std::fs::write(&path, serde_json::to_string_pretty(&ev).unwrap()).expect("write evidence");
+    }
+    if unknown > 0 { 1 } else { 0 }
+}
+
 fn main() {
     // silent panic hook: panics of the subject are outcomes, not noise
     let default_hook = std::panic::take_hook();
@@ -276,6 +427,13 @@ fn main() {
                 }
             }
         }
+        Some("deep") => match std::panic::catch_unwind(|| cmd_deep(&args)) {
+            Ok(c) => c,
+            Err(e) => {
+                eprintln!("MACHINERY-ERROR: engine panicked: {}", ops::panic_msg(e));
+                2
+            }
+        },
         _ => {
             eprintln!("usage: itmc sweep --prop Cxx --tier quick|thorough [--bounds n,a;n,a] [--evidence path] [--report path]");
             2
